@@ -64,6 +64,7 @@ FIXED = [
  ("C09", "panic:pdf/src/file.rs:*update*", "update() of a free or undefined object number is an error", "update() on a free id hit panic!()"),
  ("C20", "c20:new-document-stream-length", "a deep-cloned stream gets the /Length of the data it carries", "importing from an AES-encrypted source: copied font-file stream written with the source's stored /Length 96 but 64 bytes of (decrypted) data"),
  ("C20", "c20:crash:stack-overflow", "importing objects that refer to each other in a cycle", "a page entry referring to << /Self x 0 R >> overflowed the stack in clone_plainref"),
+ ("C13", "c13:*-shared-resolver-*:panic:*assertion `left == right` failed / process-abort:panic-in-drop-guard / spurious-recursive-reference", "the recursion guard of a shared resolver is kept per thread", "two threads sharing one resolver: thread B's push made thread A's guard pop fail assert_eq inside a destructor (abort, poisoned lock); schedule with two preemptions between push and pop"),
 ]
 OPEN = [
  ("C20", "c20:resource-missing:ColorSpace", "an imported page whose content names a colour space resource (/CS1 cs) arrives without /ColorSpace: deep_clone_op copies only ExtGState, Font and XObject resources; a repair needs writers for most ColorSpace variants (ColorSpace::to_primitive is unimplemented!() except for three), so it is recorded"),
